@@ -343,7 +343,7 @@ func (core *JApiCore) processResponseAllOf() *jerr.JApiError {
 }
 
 func (core *JApiCore) processSchemaContentJSightAllOf(sc *catalog.SchemaContentJSight, uut *catalog.StringSet) error {
-	if sc.TokenType != jschema.TokenTypeObject {
+	if sc.TokenType != jschema.TokenTypeObject && sc.TokenType != jschema.TokenTypeArray {
 		return nil
 	}
 
@@ -351,6 +351,10 @@ func (core *JApiCore) processSchemaContentJSightAllOf(sc *catalog.SchemaContentJ
 		if err := core.processSchemaContentJSightAllOf(v, uut); err != nil {
 			return err
 		}
+	}
+
+	if sc.TokenType != jschema.TokenTypeObject {
+		return nil
 	}
 
 	rule, ok := sc.Rules.Get("allOf")
